@@ -32,6 +32,8 @@ def split_top(s, sep=','):
     return out
 
 PANIC_REWRITES = [
+    # constant residual of the `?` operator on a unit-like error: nested parentheses would confuse the call-statement regex
+    (r'const Result::<Infallible, (\w+)>::Err\(\1\)', r'const ZeroSized: residual_\1'),
     (r'(_\d+) = core::panicking::panic\(const "([^"]*)"\) -> (?:bb\d+|unwind continue);', r'assert(const false, "\2") -> [success: bb0, unwind: bb0];'),
     (r'(_\d+) = std::rt::panic_fmt\(move (_\d+)\) -> (?:bb\d+|unwind continue);', r'assert(const false, "panic_fmt") -> [success: bb0, unwind: bb0];'),
     (r'(_\d+) = core::panicking::assert_failed::<[^;]*\) -> (?:bb\d+|unwind continue);', r'assert(const false, "assert_eq failed") -> [success: bb0, unwind: bb0];'),
@@ -279,8 +281,17 @@ class Interp:
         if s.startswith('&mut ') or s.startswith('&'):
             p = self.parse_place(s[5:] if s.startswith('&mut ') else s[1:])
             return self.make_ref(fr, p)
+        m = re.match(r'^(?:std::option::)?Option::<.*?>::Some\((.*)\)$', s)
+        if m:
+            return OptionVal(z3.BoolVal(True), self.operand(fr, m.group(1)))
+        if re.match(r'^(?:std::option::)?Option::<.*>::None$', s):
+            return OptionVal(z3.BoolVal(False), bv(0))
         if s.startswith('discriminant('):
             v = self.load(fr, self.parse_place(s[13:-1]))
+            if isinstance(v, OptionVal):
+                return z3.If(v.some, bv(1), bv(0)) if z3.is_expr(v.some) else bv(1 if v.some else 0)
+            if isinstance(v, ResultVal):
+                return z3.If(v.ok, bv(0), bv(1))
             assert isinstance(v, Entry)
             m_ = self.read_ref(v.mapref)
             pres = self.map_present(m_, v.key)
@@ -397,6 +408,8 @@ class Interp:
         if fname == 'core::f64::<impl f64>::max': return z3.If(z3.fpIsNaN(a[0]), a[1], z3.If(z3.fpIsNaN(a[1]), a[0], z3.If(z3.fpGEQ(a[0], a[1]), a[0], a[1])))
         if ' as Iterator>::map::<' in fname or ' as Iterator>::cloned::<' in fname: return a[0]
         if fname.startswith('Arguments::') or fname.startswith('core::fmt::') or fname.startswith('std::fmt::'): return Opaque('fmt')
+        g = self.generic_option_call(fname, a)
+        if g is not None: return g[0]
         g = self.generic_map_call(fr, fname, a)
         if g is not None: return g[0]
         g = self.generic_int_call(fname, a)
@@ -406,6 +419,47 @@ class Interp:
             # a (private) function of the crate itself, e.g. a helper a refactoring extracted: interpret its MIR
             return self.call_local_merged(loc, a, fr)
         raise Exception('no model for call ' + fname)
+
+    def generic_option_call(self, fname, a):
+        """Option<integer/bool> helpers (OptionVal(some, payload))"""
+        def val(x):
+            x = self.read_ref(x) if isinstance(x, Ref) else x
+            return x if isinstance(x, OptionVal) else None
+        def some_of(o):
+            return o.some if z3.is_expr(o.some) else z3.BoolVal(bool(o.some))
+        m = re.match(r'^<(?:std::option::)?Option<.*> as PartialEq>::(eq|ne)$', fname)
+        if m and len(a) == 2:
+            x, y = val(a[0]), val(a[1])
+            if x is None or y is None or not (z3.is_expr(x.payload) and z3.is_expr(y.payload)):
+                return None
+            eq = z3.And(some_of(x) == some_of(y), z3.Or(z3.Not(some_of(x)), x.payload == y.payload))
+            return (eq if m.group(1) == 'eq' else z3.Not(eq),)
+        # the `?` operator on Result: ControlFlow<Result<Infallible,E>, T> is represented by the Result itself (Continue = Ok has
+        # discriminant 0, Break = Err has 1; `(x as Continue).0` / `(x as Break).0` read the payload)
+        if re.match(r'^<(?:std::result::)?Result<.*> as (?:std::ops::)?Try>::branch$', fname) and a:
+            r = self.read_ref(a[0]) if isinstance(a[0], Ref) else a[0]
+            if isinstance(r, ResultVal):
+                return (r,)
+        if re.match(r'^<(?:std::result::)?Result<.*> as (?:std::ops::)?FromResidual<.*>>::from_residual$', fname) and a:
+            r = self.read_ref(a[0]) if isinstance(a[0], Ref) else a[0]
+            return (ResultVal(z3.BoolVal(False), r.payload if isinstance(r, ResultVal) else r),)
+        m = re.match(r'^(?:std::option::)?Option::<.*>::(is_some|is_none|unwrap|expect|unwrap_or|unwrap_or_default)$', fname)
+        if m and a:
+            o = val(a[0])
+            if o is None:
+                return None
+            op = m.group(1)
+            if op == 'is_some': return (some_of(o),)
+            if op == 'is_none': return (z3.Not(some_of(o)),)
+            if op in ('unwrap', 'expect'):
+                bad = z3.simplify(z3.And(self.cur_pc, z3.Not(some_of(o))))
+                if not z3.is_false(bad):
+                    self.results.append((bad, 'panic', 'unwrap on None', None))
+                self.cur_pc = z3.simplify(z3.And(self.cur_pc, some_of(o)))
+                return (o.payload,)
+            if op == 'unwrap_or' and z3.is_expr(o.payload): return (z3.If(some_of(o), o.payload, a[1]),)
+            if op == 'unwrap_or_default' and z3.is_bv(o.payload): return (z3.If(some_of(o), o.payload, z3.BitVecVal(0, o.payload.size())),)
+        return None
 
     # ---- HashMap entry / retain idioms with closures (generic over the K-key map contract)
     def closure_by_span(self, fname):
